@@ -45,6 +45,36 @@ def idInjective (c₁ c₂ : Claim) (id₁ id₂ : Str) : Bool :=
   !(c₁.chainId = c₂.chainId && c₁.sender.length = 42 && c₂.sender.length = 42 && id₁ = id₂) ||
   (c₁.nonce = c₂.nonce && c₁.sender = c₂.sender)
 
+/-! ### the batch the relayer actually submits -/
+
+/-- an event that must appear in the submitted transaction: well-formed, and its claim passes the chain's
+    stateless validation (validator set, nonce not negative after narrowing, "eth" only with the null token) -/
+def submittable (env : Env) (val : Str) (ev : EthEvent) : Bool :=
+  ethWellFormed env ev && val ≠ [] && decide (0 ≤ int64OfBig ev.nonce) &&
+  !(toLower env (claimSymbol env ev) = str "eth" && !isZeroAddr ev.token)
+
+/-- number of submitted claims = number of submittable events of the batch -/
+def batchCountOK (env : Env) (val : Str) (events : List EthEvent) (claims : List Claim) : Bool :=
+  claims.length = (events.filter (submittable env val)).length
+
+/-- every submitted claim is the faithful translation of ITS OWN source event (k-th claim ↔ k-th
+    submittable event of the batch) -/
+def batchFieldsOK (env : Env) (val : Str) (events : List EthEvent) (claims : List Claim) : Bool :=
+  ((events.filter (submittable env val)).zip claims).all (fun p => claimFaithful env val p.1 p.2)
+
+def inEnvelope (ev : EthEvent) : Bool := decide (0 ≤ ev.nonce) && decide (ev.nonce < 2 ^ 63) && ev.sender.length = 40
+
+/-- source events with different (nonce, sender) — same chain, nonces in the envelope — got different ids -/
+def idsPairwise : List (EthEvent × Str) → Bool
+  | [] => true
+  | (e, i) :: rest =>
+    rest.all (fun q => !(e.chainId = q.1.chainId && inEnvelope e && inEnvelope q.1) ||
+                       (e.nonce = q.1.nonce && e.sender = q.1.sender) || i ≠ q.2) && idsPairwise rest
+
+/-- distinct events of a batch ⇒ distinct claim identities (`ids` = the ids of the submitted claims, in order) -/
+def batchIdsOK (env : Env) (val : Str) (events : List EthEvent) (ids : List Str) : Bool :=
+  idsPairwise ((events.filter (submittable env val)).zip ids)
+
 /-! ### Sifchain → Ethereum -/
 
 /-- value of the last attribute with key `k` (the code overwrites: last wins) -/
